@@ -154,9 +154,14 @@ def handle (j : Json) : Except String Json := do
     -- run_cuba_reference_model for one neuron: the hand-written fold around the generated Float kernel
     let a ← (← (← j.getObjVal? "args").getArr?).toList.mapM fun x => do floatOfHex (← x.getStr?)
     let xs ← (← (← j.getObjVal? "xs").getArr?).toList.mapM fun x => do floatOfHex (← x.getStr?)
+    -- the state the run starts from (a fresh model: zero; a model that has been run before: where it stopped)
+    let st (k : String) : Except String Float := match j.getObjVal? k with
+      | .ok (.str h) => floatOfHex h
+      | _ => pure 0.0
+    let i0 ← st "I0"; let v0 ← st "v0"
     match a with
     | [dt, ts, tm, r, vl, vt, w] =>
-      let out := CubaRun.run (Generated.CubaFloat.cubaForward dt ts tm r vl vt w) (0.0 : Float) xs
+      let out := CubaRun.go (Generated.CubaFloat.cubaForward dt ts tm r vl vt w) i0 v0 xs
       pure (Json.mkObj [("z", .arr (out.map fun o => Json.str (floatToHex o.1)).toArray),
         ("v", .arr (out.map fun o => Json.str (floatToHex o.2.1)).toArray),
         ("I", .arr (out.map fun o => Json.str (floatToHex o.2.2)).toArray)])
